@@ -985,7 +985,11 @@ def native_script(g):
             ops.append(dict(op="add_matcher", client="c", table=tname, kind=r.choice(["key", "filter", "conditional"]),
                             expr=r.choice(texts), id=nid, verdict=r.random() < 0.6))
         else:
-            ops.append(dict(op="add_updater", client="c", table=tname, expr=r.choice(texts), id=nid, set={"u": S("n%d" % nid)}))
+            # an updater is arbitrary code: some set an attribute, some also delete one (what is stored, answered and
+            # indexed is the item as the updater left it)
+            st = {"u": S("n%d" % nid)}
+            if r.random() < 0.4: st["@drop"] = S(r.choice(["g", "x", "u"]))
+            ops.append(dict(op="add_updater", client="c", table=tname, expr=r.choice(texts), id=nid, set=st))
     # reads of a table that is still empty: nothing is evaluated, only the check of the expressions can speak
     vals_for = lambda e: {k: S(k[1:]) for k in [":y", ":x", ":v", ":h"] if k in e}
     for _ in range(r.randrange(0, 3)):
@@ -1092,6 +1096,17 @@ def restrictions_script(g):
             vals = {k2: (N("0") if k2 == ":n" else S("S") if "attribute_type" in e else S("x")) for k2 in [":n", ":v"] if k2 in e}
             ops.append(r.choice([dict(op="scan", filter=e, names={}, values=vals, **base),
                                  dict(op="delete", key={"h": S("zz"), "r": S("9")}, cond=e, names={}, values=vals, **base)]))
+            continue
+        if r.random() < 0.06:
+            # one string in both roles, in either order: a "#k" that was a well-formed name is still no value placeholder,
+            # and a ":k" refused as a name is still a fine value placeholder afterwards
+            kk = r.choice(["#k", "#role", ":k", ":role"])
+            as_name = dict(op="scan", filter="%s = :v" % kk, names={kk: "g"}, values={":v": S("x")}, **base)
+            as_value = dict(op="scan", filter="g = %s" % kk, names={}, values={kk: S("x")}, **base)
+            both = dict(op="scan", filter="#n = :v", names={"#n": "g"}, values={":v": S("x"), kk: S("x")} if kk[0] == "#" else {":v": S("x")}, **base)
+            if kk[0] == ":": both["names"][kk] = "f"
+            seq = r.choice([[as_name, as_value, as_name], [as_value, as_name, as_value], [as_name, both], [as_value, both, as_name]])
+            ops += [json.loads(json.dumps(o)) for o in seq]
             continue
         if r.random() < 0.08:
             # names are scoped to one table entry of a BatchGetItem: a name supplied for one table and used only by the
